@@ -95,6 +95,12 @@ type Iface struct {
 
 type Tuple struct{ Vals []Value }
 
+// ArrayV is a small fixed-size array value (e.g. the 8-byte write verifier).
+type ArrayV struct {
+	Typ   types.Type
+	Elems []Value
+}
+
 type Closure struct {
 	Fn       *ssa.Function
 	Bindings []Value
